@@ -644,7 +644,7 @@ fn main() {
                     }
                 }
             }
-            // valid published messages (for the C15 micro mode): the shortest valid draw of every message type, the 8 shortest overall
+            // valid published messages (for the C15 micro mode): the shortest valid draw of every message type
             let mut valid: Vec<(usize, Value)> = vec![];
             {
                 let clock = ClockCfg::plain();
@@ -673,8 +673,9 @@ fn main() {
                     }
                 }
             }
-            valid.sort_by_key(|v| v.0);
-            let valid: Vec<Value> = valid.into_iter().take(8).map(|v| v.1).collect();
+            // MT103 and MT101 first (the richest validators), then the 8 shortest of the other types
+            valid.sort_by_key(|v| (!(v.1["mt"] == "103" || v.1["mt"] == "101"), v.0));
+            let valid: Vec<Value> = valid.into_iter().filter(|v| v.0 <= 1000).take(10).map(|v| v.1).collect();
             std::fs::write(out_path, serde_json::to_string_pretty(&json!({"multi_error": outv, "valid": valid})).unwrap()).unwrap_or_else(|e| die(&format!("{e}")));
             println!("exported {} multi-error subjects and {} valid messages", outv.len(), valid.len());
         }
